@@ -691,11 +691,25 @@ class Executor:
             out += h(self, p, a, b)
         return out
 
-    # comprehensions are desugared to loops with invariants (DESIGN 2.2)
+    # comprehensions are desugared to loops with invariants (DESIGN 2.2); a class model may instead give a
+    # pointwise definition of `[k for k, v in X.items() if <pred(v)>]` over its abstract collection (COMPREHENSION_HOOKS)
+    def _comprehension_hook(self, node, path, kind):
+        for hook in COMPREHENSION_HOOKS:
+            r = hook(self, node, path, kind)
+            if r is not None:
+                return r
+        return None
+
     def ev_ListComp(self, node, path):
+        r = self._comprehension_hook(node, path, "list")
+        if r is not None:
+            return r
         return self.comprehension(node, path, "list")
 
     def ev_GeneratorExp(self, node, path):
+        r = self._comprehension_hook(node, path, "genexp")
+        if r is not None:
+            return r
         # a bare generator expression is only supported as the argument of a consumer
         return [(path, Py(("genexp", node, dict(path.env))))]
 
@@ -1850,4 +1864,5 @@ TRIVIAL_LOOP_MODIFIES = ["list.arr+", "list.len+", "set.has+"]
 from .core import HEAP_SORTS as HEAP_SORTS_REF  # noqa: E402
 BINOPS: Dict[tuple, Callable] = {}
 CONTAINS_HOOKS: Dict[str, Callable] = {}
+COMPREHENSION_HOOKS: list = []  # (executor, node, path, kind) -> outcomes | None
 STR_METHODS: Dict[str, Callable] = {}
